@@ -60,6 +60,9 @@ func workDir() string {
 // newStorage creates a fresh storage of the given backend; cleanup removes it.
 func newStorage(backend string) (app.Storage, func()) {
 	switch backend {
+	case "":
+		// a mode that stores nothing
+		return nil, func() {}
 	case "mem":
 		return app.NewMemStorage(), func() {}
 	case "fs", "fsbin":
